@@ -1,0 +1,96 @@
+//go:build verif
+
+package transport
+
+// Contracts for the verification machinery in /verif (comment-only; see /verif/DESIGN.md).
+//
+// C17: for each wrapper variant sink(v) is one fixed object, and every Write/Writev/Flush/
+// Read/Close of the variant talks to exactly that object with exactly the caller's arguments.
+
+//@ property C17
+//@ spec func invBuf(b *bufConn) bool = b != nil && b.Conn != nil && b.rw != nil && b.rw.Writer != nil && b.rw.Reader != nil && wunder(b.rw.Writer) == b.Conn && wunder_t(b.rw.Writer) == typeof(b.Conn) && runder(b.rw.Reader) == b.Conn && runder_t(b.rw.Reader) == typeof(b.Conn)
+//@ spec func invBufR(b *bufReadConn) bool = b != nil && b.Conn != nil && b.reader != nil && runder(b.reader) == b.Conn && runder_t(b.reader) == typeof(b.Conn)
+//@ spec func invBufW(b *bufWriteConn) bool = b != nil && b.Conn != nil && b.writer != nil && wunder(b.writer) == b.Conn && wunder_t(b.writer) == typeof(b.Conn)
+//@ spec func invRaw(r *rawConn) bool = r != nil && r.Conn != nil
+
+//@ func NewTransport
+//@   requires conn != nil
+//@   ensures both: implies(readSize > 0 && writeSize > 0, is(result, *bufConn) && invBuf(as(result, *bufConn)) && as(result, *bufConn).Conn == conn)
+//@   ensures ronly: implies(readSize > 0 && writeSize <= 0, is(result, *bufReadConn) && invBufR(as(result, *bufReadConn)) && as(result, *bufReadConn).Conn == conn)
+//@   ensures wonly: implies(readSize <= 0 && writeSize > 0, is(result, *bufWriteConn) && invBufW(as(result, *bufWriteConn)) && as(result, *bufWriteConn).Conn == conn)
+//@   ensures raw: implies(readSize <= 0 && writeSize <= 0, is(result, *rawConn) && invRaw(as(result, *rawConn)) && as(result, *rawConn).Conn == conn)
+
+// ---- bufConn: sink = rw.Writer, source = rw.Reader
+//@ func (*bufConn).Write
+//@   requires invBuf(b)
+//@   ensures sink: nemitted() == 1 && evis(0, "(*bufio.Writer).Write") && evarg(0, 0) == b.rw.Writer && sameslice(evarg(0, 1), p)
+//@   ensures result: n == evres(0, 0) && err == evres(0, 1)
+//@ func (*bufConn).Writev
+//@   requires invBuf(b)
+//@   ensures sink: nemitted() == 1 && evis(0, "(*net.Buffers).WriteTo") && is(evarg(0, 1), *bufio.Writer) && as(evarg(0, 1), *bufio.Writer) == b.rw.Writer && at(0, sameslice(*evarg(0, 0), buffs))
+//@   ensures result: result0 == evres(0, 0) && result1 == evres(0, 1)
+//@ func (*bufConn).Flush
+//@   inline
+//@   requires invBuf(b)
+//@   ensures sink: nemitted() == 1 && evis(0, "(*bufio.Writer).Flush") && evarg(0, 0) == b.rw.Writer
+//@   ensures result: result == evres(0, 0)
+//@ func (*bufConn).Read
+//@   requires invBuf(b)
+//@   ensures source: nemitted() == 1 && evis(0, "(*bufio.Reader).Read") && evarg(0, 0) == b.rw.Reader && sameslice(evarg(0, 1), p)
+//@   ensures result: n == evres(0, 0) && err == evres(0, 1)
+//@ func (*bufConn).Close
+//@   requires invBuf(b)
+//@   ensures flush_then_close: nemitted() == 2 && evis(0, "(*bufio.Writer).Flush") && evarg(0, 0) == b.rw.Writer && evis(1, "net.Conn.Close") && evrecv(1) == b.Conn
+//@   ensures result: result == evres(1, 0)
+
+// ---- bufReadConn: sink = Conn (unbuffered), source = reader
+//@ func (*bufReadConn).Read
+//@   requires invBufR(br)
+//@   ensures source: nemitted() == 1 && evis(0, "(*bufio.Reader).Read") && evarg(0, 0) == br.reader && sameslice(evarg(0, 1), b)
+//@   ensures result: n == evres(0, 0) && err == evres(0, 1)
+//@ func (*bufReadConn).Write
+//@   requires invBufR(recv)
+//@   ensures sink: nemitted() == 1 && evis(0, "net.Conn.Write") && evrecv(0) == recv.Conn && sameslice(evarg(0, 0), b)
+//@   ensures result: n == evres(0, 0) && err == evres(0, 1)
+//@ func (*bufReadConn).Writev
+//@   requires invBufR(br)
+//@   ensures sink: nemitted() == 1 && evis(0, "(*net.Buffers).WriteTo") && evarg(0, 1) == br.Conn && at(0, sameslice(*evarg(0, 0), buffs))
+//@   ensures result: result0 == evres(0, 0) && result1 == evres(0, 1)
+//@ func (*bufReadConn).Flush
+//@   requires invBufR(br)
+//@   ensures nothing_buffered: nemitted() == 0 && result == nil
+
+// ---- bufWriteConn: sink = writer, source = Conn
+//@ func (*bufWriteConn).Write
+//@   requires invBufW(bw)
+//@   ensures sink: nemitted() == 1 && evis(0, "(*bufio.Writer).Write") && evarg(0, 0) == bw.writer && sameslice(evarg(0, 1), b)
+//@   ensures result: n == evres(0, 0) && err == evres(0, 1)
+//@ func (*bufWriteConn).Writev
+//@   requires invBufW(bw)
+//@   ensures sink: nemitted() == 1 && evis(0, "(*net.Buffers).WriteTo") && is(evarg(0, 1), *bufio.Writer) && as(evarg(0, 1), *bufio.Writer) == bw.writer && at(0, sameslice(*evarg(0, 0), buffs))
+//@   ensures result: result0 == evres(0, 0) && result1 == evres(0, 1)
+//@ func (*bufWriteConn).Flush
+//@   requires invBufW(bw)
+//@   ensures sink: nemitted() == 1 && evis(0, "(*bufio.Writer).Flush") && evarg(0, 0) == bw.writer
+//@   ensures result: result == evres(0, 0)
+//@ func (*bufWriteConn).Read
+//@   requires invBufW(recv)
+//@   ensures source: nemitted() == 1 && evis(0, "net.Conn.Read") && evrecv(0) == recv.Conn && sameslice(evarg(0, 0), b)
+//@   ensures result: n == evres(0, 0) && err == evres(0, 1)
+
+// ---- rawConn: sink = source = Conn
+//@ func (*rawConn).Write
+//@   requires invRaw(recv)
+//@   ensures sink: nemitted() == 1 && evis(0, "net.Conn.Write") && evrecv(0) == recv.Conn && sameslice(evarg(0, 0), b)
+//@   ensures result: n == evres(0, 0) && err == evres(0, 1)
+//@ func (*rawConn).Read
+//@   requires invRaw(recv)
+//@   ensures source: nemitted() == 1 && evis(0, "net.Conn.Read") && evrecv(0) == recv.Conn && sameslice(evarg(0, 0), b)
+//@   ensures result: n == evres(0, 0) && err == evres(0, 1)
+//@ func (*rawConn).Writev
+//@   requires invRaw(r)
+//@   ensures sink: nemitted() == 1 && evis(0, "(*net.Buffers).WriteTo") && evarg(0, 1) == r.Conn && at(0, sameslice(*evarg(0, 0), buffs))
+//@   ensures result: result0 == evres(0, 0) && result1 == evres(0, 1)
+//@ func (*rawConn).Flush
+//@   requires invRaw(r)
+//@   ensures nothing_buffered: nemitted() == 0 && result == nil
